@@ -1471,3 +1471,17 @@ M("C17-directory-satisfies-cwd-probe", "C17", "src/cppparser/cppPreprocessor.cxx
 M("C17-benign-probe-exists-not-directory", "C17", "src/cppparser/cppPreprocessor.cxx",
   "  if (!angle_quotes && filename.is_regular_file()) {", "  if (!angle_quotes && !filename.is_directory() && filename.exists()) {",
   benign=True)
+
+# ---------------------------------------------------------------- R14.5c after the repair of F-C14b
+M("C14-slot-remap-chosen-by-address", "C14", "src/interrogate/interfaceMakerPythonNative.cxx",
+  "          // Find the remap.  There should be only one.\n          FunctionRemap *remap = ordered_remaps(def._remaps).front();\n          const char *container = \"\";",
+  "          // Find the remap.  There should be only one.\n          FunctionRemap *remap = *def._remaps.begin();\n          const char *container = \"\";",
+  expect="R14.5c|InterfaceMakerPythonNative::write_module_class|def._remaps|begin()")
+M("C14-ordered-remaps-not-sorted", "C14", "src/interrogate/interfaceMakerPythonNative.cxx",
+  "  std::sort(result.begin(), result.end(),\n            [](FunctionRemap *a, FunctionRemap *b) {\n    if (a->_wrapper_index != b->_wrapper_index) {\n      return a->_wrapper_index < b->_wrapper_index;\n    }\n    std::ostringstream proto_a, proto_b;\n    a->write_orig_prototype(proto_a, 0);\n    b->write_orig_prototype(proto_b, 0);\n    return proto_a.str() < proto_b.str();\n  });\n",
+  "",
+  expect="R14.5c|")
+M("C14-ordered-remaps-tie-by-address", "C14", "src/interrogate/interfaceMakerPythonNative.cxx",
+  "    std::ostringstream proto_a, proto_b;\n    a->write_orig_prototype(proto_a, 0);\n    b->write_orig_prototype(proto_b, 0);\n    return proto_a.str() < proto_b.str();\n  });\n  return result;",
+  "    return a < b;\n  });\n  return result;",
+  expect="R14.5")
